@@ -92,7 +92,7 @@ func c05(r *core.Run) {
 	// index prefixes built from hashes: Sprintf with an index prefix global and a hash argument
 	builders := map[string]*ssa.Function{}
 	for _, fn := range p.FuncsIn(storeRel) {
-		if strings.HasPrefix(fn.Name(), "build") && fn.Parent() == nil {
+		if rt := resultTypes(fn); fn.Parent() == nil && len(rt) == 1 && rt[0].String() == "[]byte" && len(globalsReadBy(fn)) > 0 {
 			builders[fn.Name()] = fn
 		}
 	}
